@@ -43,7 +43,7 @@ Definition tab_to_sp (c : char) : char := if N.eqb c 9%N then 32%N else c.
 Definition kid_text (k : rchild) : str :=
   match k with CT s | CDelT s => map tab_to_sp s | CTab => [32%N] | CBr | CCr => [10%N] | _ => [] end.
 Definition run_text (kids : list rchild) : str := flat_map kid_text kids.
-Definition t_b : N := 1%N. Definition t_i : N := 2%N.      (* rPr child codes of w:b and w:i; value 0 = w:val off, anything else = on *)
+Definition t_b : N := 1%N. Definition t_i : N := 2%N.      (* rPr child codes of w:b and w:i; value 0 = w:val off; 1 = no w:val, 2 = w:val="1", 3 = "true", 4 = "on": all on *)
 Definition prop_on (tag : N) (f : rpr) : bool :=
   match f with None => false | Some l => existsb (fun tv => N.eqb (fst tv) tag && negb (N.eqb (snd tv) 0%N)) l end.
 Definition markers (f : rpr) : str * str :=
